@@ -6,8 +6,9 @@
   any length — the argument loop over a list of occurrences is the fold of the per-occurrence
   step (`parseLoop_of_occurrences`), that fold is one `Option.Set` after the other on the options
   the names resolve to (`applyOccs_is_setAll`), and from there the denotation: a scalar holds the
-  conversion of its last occurrence's argument, a slice one element per occurrence in order,
-  options that are not named are not touched.  (Occurrences are taken in the spelling `--name=V`
+  conversion of its last occurrence's argument, a slice one element per occurrence in order, a
+  map the insert-or-replace of its occurrences' pairs (hence the last value per key), a flag is
+  true iff it occurred, options that are not named are not touched.  (Occurrences are taken in the spelling `--name=V`
   / `--flag`; C02 proves that the other spellings reach the same `parseOption` call.)
 -/
 import GoFlags.Props.C01.Step
@@ -315,6 +316,241 @@ theorem slice_holds_every_occurrence_in_order (E : Env) (help : HelpFn) (ci : Na
       rw [hargs]
       rw [hsame] at hval
       exact ⟨vs, hfa, hval⟩
+
+/-- what an accepted bare `Set` (no argument) leaves in a plain bool option -/
+theorem optSet_flag_val (E : Env) (help : HelpFn) (P : Parser) (r : ORef) (hr : r.valid P) (log : List Event)
+    (hty : (P.opt r).ty = .sc .bool) (hacc : (optSet E help P r none log).2.2 = none) :
+    ((optSet E help P r none log).1.opt r).val = .sc (.bool true) := by
+  obtain ⟨hty', htag, hch, hset, hclr⟩ := markSet_fields (P.opt r)
+  have hfun : (P.opt r).ty.isFunc = false := by rw [hty]; rfl
+  have hval := markSet_val (P.opt r) hfun
+  unfold optSet at hacc ⊢
+  simp only at hacc ⊢
+  have hbad : choiceRejected (P.opt r).markSet none = false := rfl
+  simp only [hbad, hty', hfun, htag, hval, Option.getD_none, Bool.false_eq_true, if_false] at hacc ⊢
+  rw [hty] at hacc ⊢
+  have hc : convert E (P.opt r).tag [] (.sc .bool) (startValue (P.opt r)) = .ok (.sc (.bool true)) :=
+    flag_becomes_true E _ _
+  simp only [hc] at hacc ⊢
+  simp only [Parser.opt_modOpt_modOpt_same _ _ _ _ hr]
+
+/-- **A flag is true iff it occurred**: after any accepted command line, a plain bool option that
+    is named by at least one occurrence holds `true`; one that is named by none holds what it held. -/
+theorem flag_true_iff_occurred (E : Env) (help : HelpFn) (ci : Nat) (r : ORef) (items : List Occ) :
+    ∀ (P : Parser) (log : List Event), Accepted E help ci P log items → r.valid P → (P.opt r).ty = .sc .bool →
+      ((setAll E help ci P log items).1.opt r).val =
+        (if ∃ it ∈ items, P.lookupLong ci it.1 = some r then .sc (.bool true) else (P.opt r).val) := by
+  induction items with
+  | nil => intro P log _ _ _; simp [setAll]
+  | cons it rest ih =>
+    intro P log hacc hr hty
+    obtain ⟨r', v, hl, hv, he, hrest⟩ := hacc
+    have hd1 := optSet_decl E help P r' v log
+    have hr1 : r.valid (optSet E help P r' v log).1 := hd1.symm.valid r hr
+    have hty1 : ((optSet E help P r' v log).1.opt r).ty = .sc .bool := by
+      have : ((optSet E help P r' v log).1.opt r).decl.ty = (P.opt r).decl.ty := by rw [hd1.opt r]
+      exact this.trans hty
+    have hih := ih _ _ hrest hr1 hty1
+    have hstep : setAll E help ci P log (it :: rest) =
+        setAll E help ci (optSet E help P r' v log).1 (optSet E help P r' v log).2.1 rest := by
+      conv => lhs; unfold setAll
+      simp only [hl, hv]
+    rw [hstep, hih]
+    have hlk : ∀ it' : Occ, (optSet E help P r' v log).1.lookupLong ci it'.1 = P.lookupLong ci it'.1 :=
+      fun it' => hd1.lookupLong ci it'.1
+    simp only [hlk]
+    by_cases hrr : r' = r
+    · subst hrr
+      -- this occurrence names the flag: bool options take no argument, so v = none
+      have hca : (P.opt r').ty.canArgument = false := by rw [hty]; rfl
+      have hvn : v = none := by
+        unfold occArg at hv
+        cases h2 : it.2 with
+        | none => rw [h2] at hv; simpa using hv.symm
+        | some V => rw [h2] at hv; simp [hca] at hv
+      subst hvn
+      have hnew := optSet_flag_val E help P r' hr log hty he
+      have hex : ∃ it' ∈ it :: rest, P.lookupLong ci it'.1 = some r' := ⟨it, by simp, hl⟩
+      simp only [hex, if_true]
+      split
+      · rfl
+      · exact hnew
+    · have hsame : (optSet E help P r' v log).1.opt r = P.opt r :=
+        set_touches_only_its_option E help P r' r v log hrr
+      rw [hsame]
+      have hiff : (∃ it' ∈ it :: rest, P.lookupLong ci it'.1 = some r) ↔ (∃ it' ∈ rest, P.lookupLong ci it'.1 = some r) := by
+        constructor
+        · rintro ⟨it', hm, hl'⟩
+          rcases List.mem_cons.mp hm with rfl | hm
+          · rw [hl] at hl'; injection hl' with e; exact absurd e hrr
+          · exact ⟨it', hm, hl'⟩
+        · rintro ⟨it', hm, hl'⟩; exact ⟨it', List.mem_cons_of_mem _ hm, hl'⟩
+      simp only [hiff]
+
+/-- the entries a map value holds -/
+def mapElems : Val → List (SVal × SVal)
+  | .map _ kvs => kvs
+  | _ => []
+
+/-- element-wise conversion of `key:value` arguments (split at the first colon) -/
+def ConvPairs (E : Env) (tag : Tag) (ks vs : Sc) : List Bytes → List (SVal × SVal) → Prop
+  | [], [] => True
+  | a :: as, p :: ps =>
+    convertSc E tag (cut 0x3A a).1 ks = .ok p.1 ∧ convertSc E tag ((cut 0x3A a).2.getD []) vs = .ok p.2 ∧
+      ConvPairs E tag ks vs as ps
+  | _, _ => False
+
+theorem convert_map (E : Env) (tag : Tag) (a : Bytes) (ks vs : Sc) (cur v' : Val)
+    (h : convert E tag a (.map ks vs) cur = .ok v') :
+    ∃ k v, convertSc E tag (cut 0x3A a).1 ks = .ok k ∧ convertSc E tag ((cut 0x3A a).2.getD []) vs = .ok v ∧
+      v' = .map false (mapInsert k v (mapElems cur)) := by
+  simp only [convert, bind, Except.bind] at h
+  cases hk : convertSc E tag (cut 0x3A a).1 ks with
+  | error m => rw [hk] at h; simp at h
+  | ok k =>
+    rw [hk] at h
+    simp only at h
+    cases hv : convertSc E tag ((cut 0x3A a).2.getD []) vs with
+    | error m => rw [hv] at h; simp at h
+    | ok v =>
+      rw [hv] at h
+      simp only at h
+      refine ⟨k, v, rfl, rfl, ?_⟩
+      cases cur <;> simp [mapElems, mapInsert] at h ⊢ <;> exact h.symm
+
+/-- **A map option holds the entries of all its occurrences, later ones replacing earlier ones of
+    the same key**: after any accepted command line on which every occurrence of the option carries
+    an argument, the option's entries are those it started from (none, at the first occurrence
+    after a parse has begun) with the `key:value` pairs of its occurrences inserted one after the
+    other in command-line order (insert-or-replace). -/
+theorem map_holds_every_occurrence (E : Env) (help : HelpFn) (ci : Nat) (r : ORef) (ks vs : Sc) (items : List Occ) :
+    ∀ (P : Parser) (log : List Event), Accepted E help ci P log items → r.valid P → (P.opt r).ty = .map ks vs →
+      (∀ it ∈ items, P.lookupLong ci it.1 = some r → it.2 ≠ none) →
+      ∃ pairs, ConvPairs E (P.opt r).tag ks vs (argsOf P ci r items) pairs ∧
+        ((setAll E help ci P log items).1.opt r).val =
+          (if argsOf P ci r items = [] then (P.opt r).val
+           else .map false (pairs.foldl (fun acc p => mapInsert p.1 p.2 acc) (mapElems (startValue (P.opt r))))) := by
+  induction items with
+  | nil =>
+    intro P log _ _ _ _
+    exact ⟨[], by simp [argsOf, ConvPairs], by simp [argsOf, setAll]⟩
+  | cons it rest ih =>
+    intro P log hacc hr hty hargd
+    obtain ⟨r', v, hl, hv, he, hrest⟩ := hacc
+    have hd1 := optSet_decl E help P r' v log
+    have hr1 : r.valid (optSet E help P r' v log).1 := hd1.symm.valid r hr
+    have hopt1 : ((optSet E help P r' v log).1.opt r).decl = (P.opt r).decl := hd1.opt r
+    have hty1 : ((optSet E help P r' v log).1.opt r).ty = .map ks vs := by
+      have : ((optSet E help P r' v log).1.opt r).decl.ty = (P.opt r).decl.ty := by rw [hopt1]
+      exact this.trans hty
+    have htag1 : ((optSet E help P r' v log).1.opt r).tag = (P.opt r).tag := by
+      have : ((optSet E help P r' v log).1.opt r).decl.tag = (P.opt r).decl.tag := by rw [hopt1]
+      exact this
+    have hargd1 : ∀ it' ∈ rest, (optSet E help P r' v log).1.lookupLong ci it'.1 = some r → it'.2 ≠ none := by
+      intro it' hit' hl'
+      rw [hd1.lookupLong] at hl'
+      exact hargd it' (by simp [hit']) hl'
+    obtain ⟨ps, hfa, hval⟩ := ih _ _ hrest hr1 hty1 hargd1
+    rw [argsOf_sameDecl hd1] at hfa hval
+    rw [htag1] at hfa
+    have hstep : setAll E help ci P log (it :: rest) =
+        setAll E help ci (optSet E help P r' v log).1 (optSet E help P r' v log).2.1 rest := by
+      conv => lhs; unfold setAll
+      simp only [hl, hv]
+    rw [hstep]
+    by_cases hrr : r' = r
+    · subst hrr
+      have hfun : (P.opt r').ty.isFunc = false := by rw [hty]; rfl
+      have hne := hargd it (by simp) hl
+      obtain ⟨V, hV⟩ := Option.ne_none_iff_exists'.mp hne
+      have hvs : ∃ a, v = some a := by
+        rw [hV] at hv
+        unfold occArg at hv
+        simp only at hv
+        split at hv
+        · cases hq : (if tagGet (P.opt r').tag (B "unquote") ≠ B "false" then unquoteIfPossible V else some V) with
+          | none => rw [hq] at hv; simp at hv
+          | some a => rw [hq] at hv; simp at hv; exact ⟨a, hv.symm⟩
+        · simp at hv
+      obtain ⟨a, rfl⟩ := hvs
+      obtain ⟨v', hconv, hnew⟩ := optSet_accepted_val E help P r' hr a log hfun he
+      have hnewclr : ((optSet E help P r' (some a) log).1.opt r').clearRef = false := by
+        have hbad : (P.opt r').choices = [] ∨ a ∈ (P.opt r').choices := by
+          obtain ⟨_, _, hch, _, _⟩ := markSet_fields (P.opt r')
+          by_cases hc0 : (P.opt r').choices = []
+          · exact Or.inl hc0
+          · right
+            unfold optSet at he
+            simp only at he
+            cases hb : choiceRejected (P.opt r').markSet (some a) with
+            | true => simp [hb] at he
+            | false =>
+              unfold choiceRejected at hb
+              rw [hch] at hb
+              simpa [hc0] using hb
+        exact (set_stores_conversion E help P r' hr a log v' hfun hbad hconv).2.2.2
+      rw [hty] at hconv
+      obtain ⟨k, vv, hk, hvv, hv'⟩ := convert_map E _ a ks vs _ v' hconv
+      have hargs : argsOf P ci r' (it :: rest) = a :: argsOf P ci r' rest := by
+        simp [argsOf, hl, hv]
+      rw [hargs]
+      have hstart1 : startValue ((optSet E help P r' (some a) log).1.opt r') = v' := by
+        rw [startValue_of_not_clearRef _ hnewclr, hnew]
+      refine ⟨(k, vv) :: ps, ⟨hk, hvv, hfa⟩, ?_⟩
+      rw [hval]
+      simp only [List.cons_ne_nil, if_false, List.foldl_cons]
+      split
+      · next hnil =>
+        rw [hnil] at hfa
+        cases ps with
+        | nil => rw [hnew, hv']; rfl
+        | cons _ _ => simp [ConvPairs] at hfa
+      · rw [hstart1, hv']
+        rfl
+    · have hsame : (optSet E help P r' v log).1.opt r = P.opt r :=
+        set_touches_only_its_option E help P r' r v log hrr
+      have hargs : argsOf P ci r (it :: rest) = argsOf P ci r rest := by
+        unfold argsOf
+        simp only [List.filterMap_cons, hl]
+        simp [hrr]
+      rw [hargs]
+      rw [hsame] at hval
+      exact ⟨ps, hfa, hval⟩
+
+/-- what a key is bound to after a sequence of insert-or-replace steps: the value of the LAST pair
+    with that key, or what the key was bound to before -/
+theorem lookup_foldl_mapInsert (pairs base : List (SVal × SVal)) (k : SVal) :
+    (pairs.foldl (fun acc p => mapInsert p.1 p.2 acc) base).lookup k =
+      match pairs.reverse.find? (fun p => p.1 == k) with
+      | some p => some p.2
+      | none => base.lookup k := by
+  have hother : ∀ (k' v' : SVal) (l : List (SVal × SVal)), k' ≠ k → (mapInsert k' v' l).lookup k = l.lookup k := by
+    intro k' v' l hne
+    induction l with
+    | nil => simp [mapInsert, List.lookup]; intro h; exact absurd h.symm hne
+    | cons q t ih =>
+      obtain ⟨qk, qv⟩ := q
+      unfold mapInsert
+      split
+      · next hq =>
+        subst hq
+        have : (k == qk) = false := by simp; exact fun h => hne h.symm
+        simp [List.lookup, this]
+      · simp only [List.lookup]
+        split <;> simp_all
+  induction pairs generalizing base with
+  | nil => simp
+  | cons p ps ih =>
+    simp only [List.foldl_cons, List.reverse_cons, List.find?_append]
+    rw [ih]
+    cases hf : ps.reverse.find? (fun q => q.1 == k) with
+    | some q => simp
+    | none =>
+      simp only [Option.none_or, List.find?_cons, List.find?_nil]
+      by_cases hpk : p.1 = k
+      · simp [hpk, mapInsert_lookup]
+      · have : (p.1 == k) = false := by simpa using hpk
+        simp [this, hother p.1 p.2 base hpk]
 
 /-! ### Non-vacuity -/
 
